@@ -136,3 +136,10 @@ Proof.
   destruct (C03_history_provenance cfg h t0 script k gq o r Hk Ho Hr) as [E|(q' & a & c & rep & Hin & Hu)]; [contradiction|].
   exists q', a, c, rep. split; [exact Hin|]. intros W1 W2. apply key_sound_equiv; assumption.
 Qed.
+
+(* the path conditions of url_wf hold of everything setPath / EscapedPath produce from bytes 0..255: parsed URLs
+   carry such paths (the host conditions of url_wf are evaluated on every generated URL by the run) *)
+Theorem C03_escaped_paths_in_domain : forall p0 p, byte_range p0 -> escaped_path_of p0 = Some p ->
+  pct_wf 0 p = true /\ contains_byte 63 p = false /\
+  (match p0 with [] => True | c :: _ => c = 47 end -> match p with [] => true | c :: _ => c =? 47 end = true).
+Proof. exact escaped_path_of_wf. Qed.
